@@ -75,9 +75,9 @@ Definition bump_ntl (maxsub : N) : gm unit :=
 
 (* run a body on the rbsp of nal[2:] starting from context [ctx]; every reader
    error is an error return of the Go function *)
-Definition hevc_run (body : gm unit) (e : N) (nal : bytes) (ctx : spslog) : res spslog :=
+Definition hevc_run (pad : bool) (body : gm unit) (e : N) (nal : bytes) (ctx : spslog) : res spslog :=
   if lenN nal <? 2 then Err err_hevc
-  else match body (br_new (nal2rbsp (skipn 2 nal)), ctx) with
+  else match body (br_new (nal2rbsp (skipn 2 nal) ++ (if pad then [0] else [])), ctx) with
        | Ok (Some _, st) => Ok (snd st)
        | Ok (None, _) => Err e
        | Err x => Err x
@@ -149,8 +149,12 @@ Definition parse_sps_hevc_body : gm unit :=
 
 (* ParseSps: the nested-flag assignment `ctx.TemporalIdNested, err = br.ReadBit()`
    stores 0 on error, and the function then returns the error *)
-Definition hevc_parse_sps (sps : bytes) (ctx : spslog) : res spslog :=
-  hevc_run parse_sps_hevc_body err_bits sps ctx.
+(* pad = true: after the F-13 repair the reader gets the RBSP copy with one zero byte
+   appended (see CodecSpsAvc.parse_sps_avc_f); ParseVps reads no Exp-Golomb code and is unchanged *)
+Definition hevc_parse_sps_f (pad : bool) (sps : bytes) (ctx : spslog) : res spslog :=
+  hevc_run pad parse_sps_hevc_body err_bits sps ctx.
+Definition hevc_parse_sps : bytes -> spslog -> res spslog := hevc_parse_sps_f true.
+Definition hevc_parse_sps_pinned : bytes -> spslog -> res spslog := hevc_parse_sps_f false.
 
 Definition hevc_ctx_fields (c : spslog) : list N :=
   map (fun i => sps_get (N.of_nat i) c) (seq 0 hevc_ctx_nfields).
